@@ -68,7 +68,7 @@ def run(ck):
     model = Model("drv_t12")
 
     # ------------------------------------------------------------------ NDEF writes
-    nlay = 3000 if ck.thorough else 400
+    nlay = 12000 if ck.thorough else 400
     f1 = f1_present()
     if f1:
         ck.notes.append("this tree still has defect F1 (empty message -> UnboundLocalError, reported by C01): "
@@ -102,7 +102,7 @@ def run(ck):
     ck.tie("Tlv model vs tt1/tt2 NDEF write: ordered write commands and resulting memory", cases=len(runs), disagreements=dis)
 
     # ------------------------------------------------------------------ Type 2 format
-    nfmt = 3000 if ck.thorough else 400
+    nfmt = 12000 if ck.thorough else 400
     reqs = []
     for i in range(nfmt):
         lay = layout_with_old(rng, "t2", False, [0, 5, 40, 255, lambda f: f - 4, lambda f: f - 2])
